@@ -196,11 +196,14 @@ Proof.
   apply negb_true_iff in H. exact H.
 Qed.
 (** ... and does not end with it *)
-Lemma value_ok_last v r c : value_ok v = true -> v = r ++ [c] -> ows c = false.
+Lemma last_not_ows_app : forall r c, last_not_ows (r ++ [c]) = true -> ows c = false.
 Proof.
-  unfold value_ok. intros H ->. apply andb_true_iff in H as [_ H]. rewrite rev_app_distr in H. cbn [rev app] in H.
-  apply negb_true_iff in H. exact H.
+  induction r as [|x r IH]; intros c H.
+  - cbn [app last_not_ows] in H. apply negb_true_iff in H. exact H.
+  - apply IH. cbn [app] in H. destruct (r ++ [c]) as [|y l] eqn:E; [destruct r; discriminate|]. exact H.
 Qed.
+Lemma value_ok_last v r c : value_ok v = true -> v = r ++ [c] -> ows c = false.
+Proof. unfold value_ok. intros H ->. apply andb_true_iff in H as [_ H]. apply last_not_ows_app in H. exact H. Qed.
 
 Definition hdr_fold (m : hmap) (hs : list hline) : hmap :=
   fold_left (fun m h => hm_insert (lower (hl_name h)) (hl_value h) m) hs m.
